@@ -86,6 +86,22 @@ def monitor(case, obs):
                 fresh = {"err": err_name(e)}
             if obs[k].get("err") != fresh.get("err") or obs[k].get("lines") != fresh.get("lines"):
                 return "render #%d at width %d on the kept object gives %r, a freshly built equal tree gives %r" % (k, a, obs[k], fresh)
+            # "rendering one widget never changes how another renders": after the container was rendered, a text item of it shows what the same text shows when
+            # it is rendered on its own at the width the container gave it (unnumbered, unforced lists and windows: that width is known in closed form)
+            if "nodes" in obs[k] and cur[0] in ("list", "window") and not (cur[0] == "list" and (cur[5] is not None or cur[3] is not None or cur[2] == 0)):
+                kids = cur[2] if cur[0] == "window" else cur[6]
+                wi = a if cur[0] == "window" else int((a - (cur[2] - 1) * cur[4]) / cur[2])
+                j = 0
+                def count(t):      # nodes of a subtree in preorder (itself included)
+                    sub = t[2] if t[0] == "window" else t[6] if t[0] == "list" else [t[1]] if t[0] == "center" else []
+                    return 1 + sum(count(x) for x in sub if x[0] not in ("ref", "upref")) + sum(1 for x in sub if x[0] in ("ref", "upref"))
+                for kid in kids:
+                    lines = obs[k]["nodes"][j] if j < len(obs[k]["nodes"]) else None
+                    if kid[0] == "text" and lines is not None and wi >= 1:
+                        alone = build(kid); alone.render(wi)
+                        if alone.get_lines() != lines:
+                            return "after render #%d at width %d the text item %r shows %r; rendered on its own at its width %d it shows %r" % (k, a, kid[1][:20], lines[:3], wi, alone.get_lines()[:3])
+                    j += count(kid) if kid[0] not in ("ref", "upref") else 1
             k += 1
     return None
 
